@@ -57,6 +57,24 @@ func init() {
 	add("C12",
 		mutant{Name: "idle windows swept on report", File: gfd, Old: "\twindow, ok := d.windows[nodeID]\n\tif !ok {\n\t\twindow = newArrivalWindow(d.bootstrapInterval, d.sampleSize)\n\t\td.windows[nodeID] = window\n\t}\n\twindow.Add(timestamp)", New: "\tfor id, w := range d.windows {\n\t\tif id != nodeID && timestamp.Sub(w.lastTimestamp) > d.bootstrapInterval*time.Duration(d.sampleSize) {\n\t\t\tdelete(d.windows, id)\n\t\t}\n\t}\n\twindow, ok := d.windows[nodeID]\n\tif !ok {\n\t\twindow = newArrivalWindow(d.bootstrapInterval, d.sampleSize)\n\t\td.windows[nodeID] = window\n\t}\n\twindow.Add(timestamp)", Rule: "C12.R5"},
 	)
+	add("C03",
+		mutant{Name: "datagram loop drops reads that fill the buffer", File: glist, Old: "\t\tbuf := l.readBuf[:n]\n", New: "\t\tif n >= len(l.readBuf) {\n\t\t\tcontinue\n\t\t}\n\t\tbuf := l.readBuf[:n]\n", Rule: "C03.R10"},
+	)
+	add("C05",
+		mutant{Name: "Sync subscribes after the snapshot", File: sync, Old: "\ts.clusterState.OnLocalEndpointUpdate(s.onLocalEndpointUpdate)\n\n\tlocalNode := s.clusterState.LocalNode()\n", New: "\tlocalNode := s.clusterState.LocalNode()\n\ts.clusterState.OnLocalEndpointUpdate(s.onLocalEndpointUpdate)\n", Rule: "C05.R3"},
+	)
+	add("C16",
+		mutant{Name: "JWKS arm of the constructor forgets the disconnect flag", File: jwtv, Old: "func NewJWTVerifier(conf *LoadedConfig) *JWTVerifier {\n", New: "func NewJWTVerifier(conf *LoadedConfig) *JWTVerifier {\n\tif conf.JWKS != nil {\n\t\treturn &JWTVerifier{keyFunc: conf.JWKS.KeyFunc, audience: conf.Audience, issuer: conf.Issuer}\n\t}\n", Rule: "C16.R8"},
+	)
+	add("C18",
+		mutant{Name: "client switches yamux keep-alives off", File: "client/upstream.go", Old: "\t\t\tmuxConfig.Logger = nil\n", New: "\t\t\tmuxConfig.EnableKeepAlive = false\n\t\t\tmuxConfig.Logger = nil\n", Rule: "C18.R10"},
+	)
+	add("C19",
+		mutant{Name: "AvgConns leaves idle active nodes out of the divisor", File: cstate, Old: "\t\tfor _, conns := range node.Endpoints {\n\t\t\ttotalConns += conns", New: "\t\tif len(node.Endpoints) == 0 {\n\t\t\tcontinue\n\t\t}\n\t\tfor _, conns := range node.Endpoints {\n\t\t\ttotalConns += conns", Rule: "C19.R3"},
+	)
+	add("C02",
+		mutant{Name: "compaction version parsed as 32 bits", File: gstate, Old: "compactVersion, err := strconv.ParseUint(e.Value, 10, 64)", New: "compactVersion, err := strconv.ParseUint(e.Value, 10, 32)", Rule: "C02.R8"},
+	)
 	add("C14",
 		mutant{Name: "zero-copy decoding of datagrams", File: gprot, Old: "func newDecoder(reader io.Reader) *decoder {\n\tvar handle codec.MsgpackHandle\n", New: "func newDecoder(reader io.Reader) *decoder {\n\tvar handle codec.MsgpackHandle\n\thandle.ZeroCopy = true\n", Rule: "C14.R2"},
 	)
